@@ -748,7 +748,7 @@ func init() {
 	sim.Register(&sim.Check{
 		ID: "C19", Title: "Bridge burns lock the value and advance the burn nonce by one", World: "ledger",
 		Gen: burnScenario.Gen, Exec: burnScenario.Exec,
-		Quick: sim.Budget{Runs: 480, WallS: 80}, Thorough: sim.Budget{Runs: 40000, WallS: 1000},
+		Quick: sim.Budget{Runs: 400, WallS: 75}, Thorough: sim.Budget{Runs: 40000, WallS: 700},
 		LevelText: "seeded search over burn histories: several burners, values around the configured minimum (0, min-1, min, min+1, half / all / more than the balance), repeated, new, empty, missing and malformed target addresses, min_burn varied through the real update-global-config owner transaction, replays of applied transactions; " +
 			"on the MPT diff of every burn: burner -value, bridge wallet +value, the address' user node nonce +1 and equal to the number of successful burns for that address, nothing else; refused burns and every other transaction leave all burn nonces and the bridge wallet untouched",
 		LevelNote: "the per-address counter of the oracle is its own (number of successful burns it observed), compared with the nonce stored in the trie",
@@ -758,7 +758,7 @@ func init() {
 	sim.Register(&sim.Check{
 		ID: "C18", Title: "Bridge mints need a quorum of authorizers and each nonce mints once", World: "ledger",
 		Gen: mintScenario.Gen, Exec: mintScenario.Exec,
-		Quick: sim.Budget{Runs: 400, WallS: 80}, Thorough: sim.Budget{Runs: 30000, WallS: 1200},
+		Quick: sim.Budget{Runs: 360, WallS: 75}, Thorough: sim.Budget{Runs: 30000, WallS: 1000},
 		LevelText: "seeded search over mint histories: 1-7 authorizers registered through add-authorizer (owner) with real seeded keys of the chain's client scheme, staked through add-to-delegate-pool (some left unstaked), some deleted again; mint payloads signed by seeded subsets, with forged (bit-flipped) signatures, signatures over a different amount / nonce / receiver / burn reference, duplicated entries, another authorizer's key, never-registered keys (own id or a registered id), wrong receiver, fresh / replayed / arbitrary nonces, amounts around min_mint and max_fee, percent_authorizers and max_fee varied through update-global-config; " +
 			"the oracle re-verifies every signature with the real scheme against the authorizer records in the trie and checks quorum, submitter == receiver, once-per-nonce over the history, receiver +amount-fee with 0 <= fee <= max_fee, bridge wallet -(amount-fee), fee added to the rewards of exactly one registered authorizer's stake pool",
 		LevelNote: "quorum is checked as count >= percent_authorizers*registered (no rounding); a mint that only passes because the contract rounds the threshold to the nearest integer is reported under its own signature",
